@@ -1222,6 +1222,10 @@ def check_call(
 
     # Try to infer more by checking against the arguments
     inputs, subst = type_check_args(inputs, unquantified, subst, ctx, node)
+    # The solutions may mention variables that have been solved as well (for example a
+    # variable of the expected type that was unified with a parameter of the function
+    # before the arguments determined that parameter)
+    subst = resolve_subst(subst)
 
     # Also make sure we found an instantiation for all free vars in the type we're
     # checking against
